@@ -105,7 +105,7 @@ class IntroductionRequestPayload(Payload):
         return IntroductionRequestPayload(destination_address,
                                           source_lan_address,
                                           source_wan_address,
-                                          [True, False][advice],
+                                          bool(advice),
                                           decode_connection_type(connection_type_0, connection_type_1),
                                           identifier,
                                           extra_bytes,
